@@ -231,12 +231,12 @@ func (cc *cfgCase) pfxShape() string {
 }
 
 func (cc *cfgCase) checkCommand(cmd string, args [][]byte) {
-	if cmd == "sort" && ref.SortExternalPattern(args) {
-		// SORT ... BY weight_* reads keys no argument names: not a key-addressed instance.
-		// The tool deliberately extracts no keys for it (pinned by its own unit tests) and so
-		// forwards it unfiltered; recorded, not judged.
-		r.Count("not_judged_sort_external_pattern", 1)
-		return
+	sortExt := cmd == "sort" && ref.SortExternalPattern(args)
+	if sortExt {
+		// SORT ... BY weight_* reads keys no argument names; its source key and STORE destination
+		// are still key arguments, so the rules apply to them (the tool's key table returns no
+		// keys for this form - FilterCmdKey handles it separately)
+		r.Count("sort_external_pattern_commands", 1)
 	}
 	r.Eval(1)
 	r.Count("commands", 1)
